@@ -32,10 +32,10 @@ def raw_canon(raw):
     return tuple(out)
 
 
-def raw_invariants(raw):
+def raw_invariants(raw, in_tx=False):
     bad = []
-    if raw.get('autocommit') != 1:
-        bad.append('autocommit is %r after the call' % raw.get('autocommit'))
+    if raw.get('autocommit') != (0 if in_tx else 1):
+        bad.append('autocommit is %r after the call (%s)' % (raw.get('autocommit'), 'an iterator is open' if in_tx else 'no transaction should be open'))
     sc = {}
     for cid, ln, cat, last in raw['loop']:
         if cat == '':
@@ -90,7 +90,12 @@ def slot_state(m):
         p = cpath(ci, cont)
         live = p is not None and any(x is lp for x in cont.loops)
         ls.append((l, (p, tuple(sorted(lp.names))) if live else 'stale'))
-    return (tuple(hs), tuple(ls))
+    its = []
+    for i in sorted(getattr(m, 'I', {})):
+        it = m.I[i]
+        its.append((i, tuple(sorted(repr(sorted(p.items())) for p in it.pending)), repr(sorted(it.current.items())) if it.current is not None else None,
+                    it.finished, tuple(sorted(repr(sorted(p.items())) for p in it.snapshot))))
+    return (tuple(hs), tuple(ls), tuple(its))
 
 
 class Universe:
@@ -136,8 +141,10 @@ def replay(ex, uni, hist, op=None, observe=True):
     if not observe:
         return m, problems, None, ans
     obs_lines = []
+    open_cifs = set(it.loopref[0] for it in getattr(m, 'I', {}).values())
     for ci in sorted(m.cifs):
-        obs_lines += ['dump C%d' % ci, 'rawdump C%d' % ci]
+        # while an iterator is open the public API cannot iterate (its transaction is in progress): raw tables only
+        obs_lines += ['rawdump C%d' % ci if ci in open_cifs else 'dump C%d' % ci, 'rawdump C%d' % ci]
     obs = ex.run(obs_lines)
     key = []
     for j, ci in enumerate(sorted(m.cifs)):
@@ -145,14 +152,15 @@ def replay(ex, uni, hist, op=None, observe=True):
         if not isinstance(d, dict) or not isinstance(raw, dict):
             problems.append(('dump', 'dump failed: %r' % (d,)))
             continue
-        got = canon_cif_dump(d)
-        exp = canon_cif_model(m.cifs[ci])
-        if got != exp:
-            problems.append(('dump', 'C%d content differs from the data model\n  impl : %r\n  model: %r' % (ci, got, exp)))
-        for b in raw_invariants(raw):
+        if ci not in open_cifs:
+            got = canon_cif_dump(d)
+            exp = canon_cif_model(m.cifs[ci])
+            if got != exp:
+                problems.append(('dump', 'C%d content differs from the data model\n  impl : %r\n  model: %r' % (ci, got, exp)))
+            if '<' in json.dumps(d) and 'rc=' in json.dumps(d):
+                problems.append(('dump', 'a query failed while dumping: %s' % json.dumps(d)[:300]))
+        for b in raw_invariants(raw, ci in open_cifs):
             problems.append(('invariant', b))
-        if '<' in json.dumps(d) and 'rc=' in json.dumps(d):
-            problems.append(('dump', 'a query failed while dumping: %s' % json.dumps(d)[:300]))
         key.append(raw_canon(raw))
     for b in m.invariants():
         problems.append(('invariant', 'model invariant: ' + b))
